@@ -51,3 +51,29 @@ def run_cases(job, fn, budget_s=None):
             M.bugs.append('case driver error:\n' + traceback.format_exc())
         done += 1
     return {'cases_done': done, 'cases_planned': job['hi'] - job['lo'], 'returns': returns}
+
+
+def repo_suite_job():
+    return [{'kind': 'repo_suite', 'lo': 0, 'hi': 1, 'params': {}, 'timeout': 1800}]
+
+
+def repo_suite(rng, case, idx):
+    """The repository's own tests, run under the monitors as one more workload (they deliberately make
+    infeasible calls; a monitor that fires here is either too strict or a defect the tests do not assert)."""
+    import os
+    import pytest
+    from pv.monitors import M
+    repo = os.environ.get('VERIF_REPO', '/repo')
+    cwd = os.getcwd()
+    os.chdir(repo)
+    prev = M.enabled
+    M.enabled = True
+    M.case = dict(case)
+    try:
+        rc = pytest.main(['-q', '-p', 'no:cacheprovider', '--no-header', os.path.join(repo, 'tests')])
+    finally:
+        M.enabled = prev
+        os.chdir(cwd)
+    M.count('repo_suite.runs')
+    M.bucket('repo_suite/exit=%d' % int(rc))
+    return {'repo_suite_exit': int(rc)}
